@@ -53,7 +53,7 @@ def flags_mode(ctx):
         ctx.prove(exc is None and m == want, "mode-table", detail=f"got {m!r} / {exc!r}, want {want!r}")
 
 
-KINDS = ["reg", "deleted", "deleted_stale", "relative", "socket", "pipe", "anon", "chardev", "toolong", "notlink", "closed_at_readlink", "closed_at_readlink_esrch", "closed_at_fdinfo", "closed_at_fdinfo_esrch", "directory"]
+KINDS = ["reg", "deleted", "deleted_stale", "relative", "relative_existing", "socket", "pipe", "anon", "chardev", "toolong", "notlink", "closed_at_readlink", "closed_at_readlink_esrch", "closed_at_fdinfo", "closed_at_fdinfo_esrch", "directory"]
 
 
 @harness("C14.open_files", quick=[dict(n=n, acc3=False) for n in (0, 1, 2)] + [dict(n=1, acc3=True)], thorough=[dict(n=n, acc3=False) for n in (0, 1, 2, 3)] + [dict(n=n, acc3=False, nsym=2) for n in (4, 5)] + [dict(n=2, acc3=True)])
@@ -93,6 +93,12 @@ def open_files(ctx, n, acc3, nsym=None):
                 want.append((path, fd, pos, flags))
         elif kind == "relative":
             k.links[link] = "relative/path"
+        elif kind == "relative_existing":
+            # a link target that is not an absolute path but names a regular file relative to the CALLER's directory (a file called
+            # "pipe:[777]" or "relative/path" lying there): still not one of the process's regular files by absolute path
+            tgt = ("pipe:[777]", "anon_inode:[eventpoll]", "relative/path")[i % 3]
+            k.links[link] = tgt
+            k.stats[tgt] = simk.StatResult()
         elif kind == "socket":
             k.links[link] = "socket:[12345]"
         elif kind == "pipe":
